@@ -711,14 +711,35 @@ def run_C17(rng, tier):
 
 # ---------------------------------------------------------------------------------- C18
 def pop_bound(d):
-    """mirror of the proved bound (Proofs/Struct*: pop_bound): elements held in all buffers"""
+    """python mirror of coq/SpecStruct.v `pop_bound` (proved sound: pop_bound_sound); the two are compared on every run"""
     name = d[0]
     sub = sum(pop_bound(a) for kind, a in zip(ARITY[name], d[1:]) if kind == "v")
     n = d[1] if len(d) > 1 and isinstance(d[1], int) else 0
-    own = {"Sma": n, "Cumulative": n, "Min": n, "Max": n, "Roc": n, "Welford": n, "WelfordMean": n, "WelfordVar": n, "Vst": n, "Vsct": n,
-           "Hln": n, "Entropy": n, "Cog": n, "Cti": n, "Net": n, "Rsi": n, "MyRsi": n, "Alma": 3 * n, "AlmaCustom": 3 * n, "Cyber": 3 * n,
-           "TrendFlex": n, "ReFlex": n, "Laguerre": 10, "Lrsi": 12, "Pfe": n, "Eft": 2 * n}.get(name, 0)
-    return sub + max(own, 0)
+    wb = max(n, 1)
+    single = {"Sma", "Cumulative", "Min", "Max", "Roc", "Welford", "WelfordMean", "WelfordVar", "Vst", "Vsct", "Hln", "Entropy", "Cog", "Cti", "Net",
+              "Rsi", "MyRsi", "TrendFlex", "ReFlex", "Pfe"}
+    if name in single:
+        return sub + wb
+    if name in ("Alma", "AlmaCustom"):
+        return sub + 3 * wb
+    if name == "Cyber":
+        return sub + 2 * wb + n
+    if name == "Laguerre":
+        return sub + 10
+    if name == "Lrsi":
+        return sub + 12
+    if name == "Eft":
+        return sub + 2 * wb
+    return sub
+
+def coq_pop_bounds(descs):
+    body = ("From Coq Require Import List ZArith QArith.\nFrom SF Require Import Res Scalar View Models Exec SpecStruct.\nImport ListNotations.\nClose Scope Q_scope. Close Scope Z_scope.\n"
+            "Eval vm_compute in (map (fun d => (Z.of_nat (@pop_bound Q d), 0%Z)) [\n" + ";\n".join(d_coq(d) for d in descs) + "\n]).\n")
+    (rc, txt), = run_coq_shards("C18_bounds", [body])
+    prs = parse_pairs(txt) if rc == 0 else None
+    if prs is None or len(prs) != len(descs):
+        raise CoqError("could not evaluate pop_bound in Coq: " + txt[-800:])
+    return [p_[0] for p_ in prs]
 
 def run_C18(rng, tier):
     k = scale(tier)
@@ -734,6 +755,11 @@ def run_C18(rng, tier):
         cases.append(Case.simple(d, xs, {"view": name, "regime": r}))
     run_impl(cases)
     viols = O.c18_pop(cases, pop_bound)
+    cb = coq_pop_bounds([c.desc for c in cases])
+    for c, b in zip(cases, cb):
+        if b != pop_bound(c.desc):
+            viols.append(("c18-bound-mirror", "python mirror of pop_bound disagrees with the proved Coq function on %s: %d vs %d" % (d_sexpr(c.desc), pop_bound(c.desc), b), {"kind": "internal", "no_failing_input": True}))
+            break
     # long f64 runs: population bounded by the proved bound at every step and constant once the window has filled; live heap bytes at L, 2L, 4L
     fc, mem = [], []
     for i in range(len(ALL_UNARY) * k):
@@ -751,3 +777,134 @@ def run_C18(rng, tier):
     viols += O.c18_mem(mem, 2000 if tier == "quick" else 250000)
     return finish("C18", "C18", cases, viols, "every view over Echo and over an inner view: number of elements in all buffers of the Debug dump at every step against the proved bound pop_bound(descriptor); long f64 runs: population constant between stream length L/2 and L; live heap bytes of the view at L, 2L, 4L (counting allocator) must not grow",
                   {"long_f64_runs": len(fc), "heap_measurements": len(mem)})
+
+# ---------------------------------------------------------------------------------- C09
+RECURSIVE = ["Ema", "Laguerre", "Ss", "Roofing", "Cyber", "TrendFlex", "ReFlex", "Lrsi", "Eft"]
+def long_case(d, xs, meta, every=50):
+    """quiet updates, observing every `every` steps and at the end"""
+    ops = []
+    for i, x in enumerate(xs):
+        if (i + 1) % every == 0 or i == len(xs) - 1:
+            ops.append(("u", 0, x))
+        else:
+            ops.append(("q", 0, x))
+    return Case(d, ops, dict(meta, model=False, mode="f64"))
+
+def run_C09(rng, tier):
+    k = scale(tier)
+    U = 100
+    L = 4000 if tier == "quick" else 40000
+    # exact-scalar tie for the recursive views and chains of them
+    cases = standalone_cases(rng, RECURSIVE, 45 * k)
+    for i in range(10 * k):
+        a = mk_view(rng, rng.choice(["Ema", "Laguerre", "Cyber"]))
+        d = mk_view(rng, rng.choice(["Ema", "Laguerre", "Lrsi", "Eft"]), a)
+        r, xs = stream_for(rng, d)
+        cases.append(Case.simple(d, xs, {"view": d[0], "regime": r, "chain": True}))
+    run_impl(cases)
+    viols = O.no_error("C09", cases)
+    # long f64 runs: bounded output, bound independent of the length
+    longs, pairs = [], []
+    nlist = lambda lo: sorted(set([lo, lo + 1, lo + 2, 3, 4, 5, 6, 7, 8, 9, 16, 40]) - set(range(0, lo)))
+    for name in RECURSIVE:
+        lo = {"Roofing": 2, "Cyber": 3, "Eft": 2}.get(name, 1)
+        ns = nlist(lo) if name != "Laguerre" else [0]
+        for n in (ns if tier == "thorough" else ns[::2] + ns[-1:]):
+            if name == "Laguerre":
+                d = ("Laguerre", rng.choice([F(0), F(1, 2), F(4, 5), F(9, 10), F(99, 100)]), E)
+            elif name == "Roofing":
+                d = ("Roofing", n, 1 + rng.below(8), E)
+            elif name == "Eft":
+                d = ("Eft", n, E, rng.choice(MAS))
+            else:
+                d = (name, n, E)
+            reg = rng.choice(["iid", "walk", "signs", "const_stretch"])
+            _, xs = gen_stream(rng, L, reg, grid=8)
+            xs = [max(F(-U), min(F(U), x * 5)) for x in xs]
+            longs.append(long_case(d, xs, {"view": name, "regime": reg + "-long"}))
+            # fading: different prefixes, common non-degenerate tail
+            _, tail = gen_stream(rng, L // 2, "iid", grid=8)
+            p1 = [F(rng.below(200) - 100) for _ in range(40)]
+            p2 = [F(rng.below(2000) - 1000, 10) for _ in range(40)]
+            pairs.append((long_case(d, p1 + tail, {"view": name, "regime": "prefixA+tail"}, every=10 ** 9),
+                          long_case(d, p2 + tail, {"view": name, "regime": "prefixB+tail"}, every=10 ** 9)))
+    chains = [("Ema", 3, ("Ss", 5, E)), ("Ss", 4, ("Roofing", 3, 2, E)), ("Laguerre", F(1, 2), ("Cyber", 6, ("Ema", 2, E))), ("Lrsi", 4, ("Ss", 3, E)), ("Eft", 5, ("Ema", 3, E), ("Ema", 3, E))]
+    for d in chains:
+        _, xs = gen_stream(rng, L, "iid", grid=8)
+        longs.append(long_case(d, [x * 5 for x in xs], {"view": d[0], "regime": "chain-long"}))
+    # the recorded W3 witness: LaguerreRSI on a constant tail
+    w3 = (long_case(("Lrsi", 16, E), [F(v) for v in (10, 11, 12, 13, 14)] + [F(5)] * 4000, {"view": "Lrsi", "regime": "W3-const-tail"}, every=10 ** 9),
+          long_case(("Lrsi", 16, E), [F(2), F(1)] + [F(5)] * 4003, {"view": "Lrsi", "regime": "W3-const-tail"}, every=10 ** 9))
+    allf = longs + [c for p in pairs for c in p] + list(w3)
+    run_impl(allf, mode="f64")
+    viols += O.c09(longs, pairs, w3, U)
+    return finish("C09", "C09", cases, viols, "recursive views for N = minimum..9, 16, 40 (all gammas / MAs): %d-step f64 runs on inputs bounded by 100 (bounded finite output, bound independent of the length), pairs of streams with different prefixes and a common non-degenerate tail (outputs must have converged), chains; exact-scalar correspondence on short runs" % L,
+                  {"long_f64_runs": len(longs), "fading_pairs": len(pairs), "stream_length": L})
+
+# ---------------------------------------------------------------------------------- C16
+C16_VIEWS = ["Sma", "Cumulative", "Alma", "Rsi", "MyRsi", "Welford", "WelfordMean", "Vst", "Vsct", "Hln", "Cti", "Net", "Roc", "Ema", "Min", "Max"]
+def run_C16(rng, tier):
+    k = scale(tier)
+    L = 20000 if tier == "quick" else 200000
+    groups = []
+    def sampled(d, xs, meta, every):
+        ops = []
+        for i, x in enumerate(xs):
+            ops.append(("u" if ((i + 1) % every == 0 or i == len(xs) - 1) else "q", 0, x))
+        return Case(d, ops, meta)
+    # long streams, bounded dynamic range: magnitudes and steps within three decades
+    for name in C16_VIEWS + ["WRolling", "WRollingMean", "Cyber"]:
+        for n in ([2, 5, 14] if tier == "quick" else [1, 2, 3, 5, 14, 50]):
+            if name == "Cyber":
+                n = max(n, 6)
+            d = (name, E) if name in ("WRolling", "WRollingMean") else (name, n, E)
+            c = F(500)
+            xs = []
+            # exact runs of the recursive views grow by a few bits per step: shorter streams there
+            for _ in range(L if name not in ("Ema", "Cyber") else 1500):
+                c += F(rng.below(199) - 99)          # steps 1..99 (or 0)
+                c = max(F(1), min(F(1000), c))
+                xs.append(c)
+            meta = {"view": name, "regime": "long-bounded-range", "model": False}
+            groups.append(("long", sampled(d, xs, dict(meta, mode="f64"), 997), sampled(d, xs, dict(meta, mode="ex"), 997), None))
+            if name in ("WRolling", "WRollingMean"):
+                break
+    # volatile stretch, then >= N+1 identical values
+    for name in C16_VIEWS + ["Cyber"]:
+        for rep in range(3 * k):
+            n = rng.choice([2, 3, 5, 13]) if name != "Cyber" else rng.choice([6, 9])
+            d = (name, n, E)
+            mag = rng.choice([1000, 1000000, 30])
+            pre = [F(rng.below(2 * mag * 1000) - mag * 1000, 1000) for _ in range(20 + rng.below(40))]
+            v = F(rng.below(9000) + 1, 10)
+            flat = [v] * (n + 1 + rng.below(4) + (n if name == "Alma" else 0))
+            xs = pre + flat
+            meta = {"view": name, "regime": "volatile-then-flat", "model": False, "flat_len": len(flat), "flat_value": str(v)}
+            groups.append(("flat", Case.simple(d, xs, dict(meta, mode="f64")), Case.simple(d, xs, dict(meta, mode="ex")), v))
+    # recorded D14 witnesses
+    for d, xs in ((("Rsi", 3, E), [1, 2, 1000000, 3, 5, 5, 5, 5, 5]), (("MyRsi", 3, E), [1, 2, 1000000, 3, 5, 5, 5, 5, 5])):
+        meta = {"view": d[0], "regime": "volatile-then-flat", "model": False, "flat_len": 5, "flat_value": "5"}
+        groups.append(("flat", Case.simple(d, xs, dict(meta, mode="f64")), Case.simple(d, xs, dict(meta, mode="ex")), F(5)))
+    run_impl([g[1] for g in groups], mode="f64", profile="release")
+    run_impl([g[2] for g in groups], mode="ex", profile="release", prec=(96, 64))
+    viols = O.c16(groups)
+    # f32, shorter streams
+    f32 = []
+    for name in ("Sma", "Cumulative", "Ema", "WelfordMean", "Rsi", "Min", "Max"):
+        d = (name, 5, E)
+        xs = []
+        c = F(500)
+        for _ in range(3000):
+            c += F(rng.below(199) - 99)
+            c = max(F(1), min(F(1000), c))
+            xs.append(c)
+        meta = {"view": name, "regime": "f32-long", "model": False}
+        f32.append(("f32", sampled(d, xs, dict(meta, mode="f32"), 499), sampled(d, xs, dict(meta, mode="ex"), 499), None))
+    run_impl([g[1] for g in f32], mode="f32", profile="release")
+    run_impl([g[2] for g in f32], mode="ex", profile="release", prec=(96, 64))
+    viols += O.c16(f32, tol=F(1, 100))
+    # exact-scalar tie of the anchored views (short runs, model vs code)
+    cases = standalone_cases(rng, C16_VIEWS, 40 * k)
+    run_impl(cases)
+    return finish("C16", "C16", cases, viols, "f64 (release) against the same code at the exact scalar (surrogates at 2^-64): %d-step streams with magnitudes and steps inside three decades, sampled every 997 steps (tolerance 1e-6 x scale); volatile prefixes of magnitude 30 / 1e3 / 1e6 followed by >= N+1 identical values (tolerance 1e-4 x scale, exact flat answers); f32 on 3000-step streams (1e-2); plus the exact-scalar correspondence of the anchored views" % L,
+                  {"f64_vs_exact_runs": len(groups), "f32_runs": len(f32), "stream_length": L})
